@@ -90,7 +90,7 @@ def build_one(exe, rng, idx):
             h.send("reply %s %s" % (sv, bytes(b).hex()))
             h.tag("bad-reply")
         elif style < 0.68:
-            h.send("reply %s %s" % (sv, h.make_reply(ent, code=rng.choice([1, 4, 12, 40, 42, 0, 255]), attrs=[]).hex()))
+            h.send("reply %s %s" % (sv, h.make_reply(ent, code=rng.choice([1, 4, 12, 40, 42, 0, 255, 34, 35, 37, 43, 66, 67, 69, 75, 130, 139]), attrs=[]).hex()))
             h.tag("bad-reply")
         elif style < 0.84:
             h.send("writer " + sv)
